@@ -112,6 +112,9 @@ pub(crate) struct TFut {
     done: bool,
     /// makes the task block large enough that stale accesses hit poisoned bytes
     _pad: [u64; 24],
+    /// the destructor panics when the future is dropped after it has returned Ready (the
+    /// Runnable drops a completed future before it publishes the output)
+    drop_panics: bool,
 }
 
 pub(crate) struct TOut {
@@ -136,6 +139,9 @@ impl Drop for TFut {
         }
         if self.sh.polling.load(SeqCst) {
             self.sh.fail("future-dropped-while-polled", "the future was dropped while a poll was in progress".into());
+        }
+        if self.drop_panics && self.done && !std::thread::panicking() {
+            std::panic::resume_unwind(Box::new("scripted panic in the destructor of a completed future"));
         }
     }
 }
@@ -226,6 +232,10 @@ pub(crate) struct Handles {
 /// Spawns the scripted task; the first `Runnable` is put in the queue, as an
 /// executor would do.
 pub(crate) fn spawn_task(script: &[Step], with_promise: bool, slot: usize) -> Handles {
+    spawn_task_ex(script, with_promise, slot, false)
+}
+
+pub(crate) fn spawn_task_ex(script: &[Step], with_promise: bool, slot: usize, drop_panics: bool) -> Handles {
     let sh = Shared::new();
     let fut = TFut {
         sh: sh.clone(),
@@ -233,6 +243,7 @@ pub(crate) fn spawn_task(script: &[Step], with_promise: bool, slot: usize) -> Ha
         idx: 0,
         done: false,
         _pad: [0; 24],
+        drop_panics,
     };
     let tag = Tag(StdArc::as_ptr(&sh));
     if with_promise {
@@ -813,12 +824,15 @@ pub(crate) struct ConcCase {
     pub seed: u64,
     /// 0 = uniform random scheduler, d>0 = PCT depth d (shuttle only)
     pub mode: u8,
+    /// the destructor of the future panics when it is dropped after completion (real threads only)
+    #[serde(default)]
+    pub drop_panics: bool,
 }
 
 /// One execution of a concurrent program; panics with "ORACLE <clause>|<detail>".
 pub(crate) fn conc_once(c: &ConcCase, slot: usize, classes: &StdMutex<Vec<&'static str>>) {
     at::begin_case(slot);
-    let h = spawn_task(&c.script, c.with_promise, slot);
+    let h = spawn_task_ex(&c.script, c.with_promise, slot, c.drop_panics && rt::FLAVOUR != "shuttle");
     let sh = h.sh.clone();
     let promise = StdArc::new(rt::Mutex::new(h.promise));
     let token = StdArc::new(rt::Mutex::new(h.token));
@@ -1075,8 +1089,9 @@ impl SubCheck for TaskConcSub {
             proptest::collection::vec(proptest::collection::vec(conc_op_strategy(), 1..7), 1..3),
             any::<u64>(),
             prop_oneof![3 => Just(0u8), 1 => Just(2u8), 1 => Just(3u8)],
+            prop_oneof![5 => Just(false), 1 => Just(true)],
         )
-            .prop_map(|(with_promise, script, exec, attempts, threads, seed, mode)| ConcCase {
+            .prop_map(|(with_promise, script, exec, attempts, threads, seed, mode, drop_panics)| ConcCase {
                 with_promise,
                 script,
                 exec,
@@ -1084,6 +1099,7 @@ impl SubCheck for TaskConcSub {
                 threads,
                 seed,
                 mode,
+                drop_panics: drop_panics && rt::FLAVOUR != "shuttle",
             })
             .boxed()
     }
